@@ -109,7 +109,8 @@ def eval_step(case):
     if ev.obs.parse_exc is None and ev.msg.kind is not None and ev.obs.cls_name != ev.msg.kind:
         # the model and the library disagree on what the message *is*: this is
         # C08's business; the step judges would compare apples and oranges
-        ev.ex = model.Expect()
+        # (the message text decides what the message IS - C08's table; the step judges keep the
+        # model's expectation, so a merge done as another class is judged for what it does)
         ev.ex.note = f'class-mismatch model={ev.msg.kind} library={ev.obs.cls_name}'
     return ev
 
